@@ -23,14 +23,18 @@ ASSUME = ['a frame spawned with the bottom view or with the view of an existing 
 
 def run(ctx):
     ctx.trusted_base, ctx.assumptions = TB, ASSUME
-    if not ctx.harness(['ls_channel', 'sh_probe']):
+    if not ctx.harness(['ls_channel', 'p_nested', 'sh_probe']):
         return
     ctx.translate(COMPONENTS)
     ctx.prove('props/C07.v')
     L.lockstep(ctx, [L.mon_c07])
+    L.nested_sweep(ctx, ('drops', 'outcome'))
     L.histories(ctx, 500 if ctx.tier == 'quick' else 5000)
     # model-side search: the only way to exhibit a weak-memory failure (runs always; finds nothing while the theorems hold)
     L.ra_search(ctx, 3000 if ctx.tier == 'quick' else 100000)
+    ctx.coverage['rule_nested'] = ('instruction-level sweep (trap flag): send/recv interrupted after every instruction by a handler running '
+                                   'send/recv to completion, fill 0-5; outcomes (returns, drained values, drop counts, panic, hang) against the '
+                                   'outcomes of the SC model over all step boundaries')
     ctx.coverage['rule'] = ('same scenarios/schedules as C06; monitors on the real traces: payload constructed once and dropped exactly once '
                             '(per tag, before/after the channel is dropped), cells alternate write/take and a take returns what was written, '
                             'vector-clock race detection on the cell accesses with release/acquire edges only where the traced orderings give '
